@@ -806,6 +806,27 @@ func main() {
 		}
 		a.counts["outcome_error_nil_hasher"] += 4
 		a.distinct = append(a.distinct, fmt.Sprintf("p5/%d.%d.%d/nil", g.ci, g.ki, g.mi))
+		// an unusable hasher is refused WHATEVER the signature looks like (the statement names no
+		// exception): nil and size-31 hashers against signatures of other lengths and out-of-range r, s
+		{
+			zero64 := make([]byte, 64)
+			odd := [][]byte{{}, base[:1], base[:63], append(append([]byte{}, base...), 0), zero64, bytes.Repeat([]byte{0xff}, 64), nil}
+			sd31 := bytes.Repeat([]byte{0x5a}, 31)
+			for _, sg := range odd {
+				for _, pv := range pks[:1] {
+					ok, err := pv.pk.Verify(sg, msg, nil)
+					a.counts["evaluations"]++
+					if ok || !crypto.IsNilHasherError(err) {
+						guardViol("Verify", "nil#other-signature-shapes", nil, sg, "(false, nil-hasher error) for every signature", fmt.Sprintf("%v,%v", ok, err))
+					}
+					ok, err = pv.pk.Verify(sg, msg, &stubHasher{sd31, 31})
+					a.counts["evaluations"]++
+					if ok || !crypto.IsInvalidHasherSizeError(err) {
+						guardViol("Verify", "stub-size#31#other-signature-shapes", sd31, sg, "(false, invalid-hasher-size error) for every signature", fmt.Sprintf("%v,%v", ok, err))
+					}
+				}
+			}
+		}
 		// sizes 0..31
 		for size := 0; size < 32; size++ {
 			sd := make([]byte, size)
